@@ -41,6 +41,19 @@ Section C12.
       n_upd n = map ser (sel KUpd (flat_map (run_event e) (rt_all (d_runs s))) ++ pu).
   Proof. exact (local_step_note E). Qed.
 
+  (* ... and what it announces about such a run is the run exactly as process left it: the same identifier, a position
+     not behind the one the run had before the event (with C12_announced_from_active: every record of the three lists
+     that is not a freshly started run) *)
+  Theorem C12_announced_position_not_behind : forall (e : E) (k : kind) (l : list (run E)) (x : run E),
+    In x (sel k (flat_map (run_event e) l)) ->
+    exists r, In r l /\ process r e = Ok (x, true) /\ k = kind_of x /\ run_le E r x /\
+              (s_idx (ser x) >= r_idx r)%nat /\ s_id (ser x) = r_id r.
+  Proof. exact (sel_run_event_current E). Qed.
+
+  (* snapshot(): the active runs as they are now, nothing else *)
+  Theorem C12_snapshot_is_current : forall (s : dstate E), n_upd (snapshot s) = map ser (rt_all (d_runs s)).
+  Proof. reflexivity. Qed.
+
   (* local steps: every surviving run moved forward (index greater, or equal index and history not shorter) *)
   Theorem C12_local_never_backwards : forall (e : E) (r r' : run E),
     after_event e r = Some r' -> run_le E r r'.
@@ -72,6 +85,8 @@ Print Assumptions C12_local_appends_only.
 Print Assumptions C12_finished_ignores_events.
 Print Assumptions C12_finished_leaves_active_set.
 Print Assumptions C12_announced_from_active.
+Print Assumptions C12_announced_position_not_behind.
+Print Assumptions C12_snapshot_is_current.
 Print Assumptions C12_local_never_backwards.
 Print Assumptions C12_remote_never_backwards.
 Print Assumptions C12_remote_only_if_ahead.
